@@ -55,12 +55,12 @@ def mk_reconstruct(t, n, perm, enc):
                    [{'mod': 'wit', 'fn': '@W@', 'args': ['L', 'U', 'P', 'R']}, {'mod': 'ref', 'fn': '@R@', 'args': ['L', 'U', 'Rref']}], [{'kind': 'equal', 'a': 'R', 'b': 'Rref', 'cells': n * n, 'mode': 'ALG'}])
 
 
-def mk_pivoted(t, n, strat, enc):
+def mk_pivoted(t, n, strat, enc, arg='tensor'):
     """lu<...Piv>(A,L,U,P) end to end on A = L(lam)D(del)U(mu): in every case of the symbolic pivot search L is unit lower, U upper,
     P is a bijection (vector) / permutation matrix, and reconstruct(L,U,P) gives back A"""
     ct = CTYPE[t]; tt = tensor_t(t, [n, n])
     Pt = 'Tensor<size_t,%d>' % n if enc == 'V' else tt
-    wit = 'extern "C" void @W@(const %s& A, %s& L, %s& U, %s& P, %s& R){ lu<LUCompType::%s>(A, L, U, P); R = reconstruct(L, U, P); }' % (tt, tt, tt, Pt, tt, strat)
+    wit = 'extern "C" void @W@(const %s& A, %s& L, %s& U, %s& P, %s& R){ lu<LUCompType::%s>(%s, L, U, P); R = reconstruct(L, U, P); }' % (tt, tt, tt, Pt, tt, strat, 'A' if arg == 'tensor' else 'A+0')   # expression operands take separate overloads (evaluate, then pivot the temporary)
     if enc == 'V':
         post = 'extern "C" void @R@post(const %s* A, const %s* R, const unsigned long* P, %s* D, long* Q){ for(int i=0;i<%d;i++) D[i] = R[i] - A[i]; for(int i=0;i<%d;i++){ long c=0; for(int j=0;j<%d;j++) c += (P[j]==(unsigned long)i); Q[i] = c - 1; } }' % (ct, ct, ct, n * n, n, n)
         preg = {'name': 'P', 'ety': 'i64', 'cells': n, 'kind': 'tensor', 'role': 'out', 'init': 'undef'}
@@ -80,7 +80,7 @@ def mk_pivoted(t, n, strat, enc):
     diag = [i * n + i for i in range(n)]
     obl = [{'kind': 'zero', 'region': 'D', 'cells': n * n}, {'kind': 'zero', 'region': 'Q', 'cells': qn},
            {'kind': 'const', 'region': 'L', 'cells': upper, 'value': 0}, {'kind': 'const', 'region': 'L', 'cells': diag, 'value': 1, 'mode': 'EXACTDIV'}, {'kind': 'const', 'region': 'U', 'cells': lower, 'value': 0}]
-    return Witness('lupiv_%s_%s_%s_%d' % (t, strat, enc, n), 'lu.' + strat + '.pivoted.' + enc, {'type': t, 'n': n, 'strategy': strat, 'enc': enc}, wit, ref, regions, stages, obl,
+    return Witness('lupiv_%s_%s_%s_%d%s' % (t, strat, enc, n, '' if arg == 'tensor' else '_expr'), 'lu.' + strat + '.pivoted.' + enc + ('' if arg == 'tensor' else '.expr'), {'type': t, 'n': n, 'strategy': strat, 'enc': enc, 'arg': arg}, wit, ref, regions, stages, obl,
                    extra={'poly_cap': 600000, 'max_steps': 300000000, 'max_ms': 400000})
 
 
@@ -109,6 +109,8 @@ def witnesses(tier, seed):
                     if t == 'f32' and n > (2 if quick else 3):
                         continue
                     W.append(mk_pivoted(t, n, strat, enc))
+                    if t == 'f64' and n >= 2:
+                        W.append(mk_pivoted(t, n, strat, enc, arg='expr'))
     return group_sort(W)
 
 
